@@ -6,14 +6,13 @@ from vf.runner import Acc
 from vf.sim import install
 
 ID = "C12"
-OPT_QUICK_ALL = True      # every partition also in a child interpreter started with -O
 LEVEL = "model_checking"
 TECHNIQUE = "breadth-first explicit-state search over write / write-same / sync histories through the real facade against a simulated conformant block target, SG_IO and iSCSI in lock-step, disk state de-duplicated, every state read back in full and compared with a dict reference model"
 RULE = ("events: write10/12/16 and writesame10/16 (incl. unmap, anchor, ndob) over LBAs {0,1,2^32-2,2^32-1 | 2^32, 2^40+3, 2^63+5, 2^64-2, 2^64-1 (16-byte forms)} x "
         "transfer lengths {0,1,2} x payloads {A,B} plus one all-flags variant per command and one write per payload container kind (bytes, writable / read-only memoryview window at a non-zero offset of a larger buffer), WRITE SAME with block counts 0xFFFF / 0x10000 / 0x10003 / 0xFFFFFFFF, synchronizecache10/16; BFS to depth 2 (quick) / 3 "
         "(thorough) de-duplicating on disk content, per block size in {512, 4096}; each history is replayed from scratch through the facade on a "
         "fresh SG_IO device and a fresh iSCSI device. In every state every read form (read10/12/16, lengths 1..2, one all-flags variant) over every "
-        "touched LBA and its neighbours, READ CAPACITY(10/16) and INQUIRY are compared with the model and across transports. states = distinct "
+        "touched LBA and its neighbours, READ CAPACITY(10/16) and INQUIRY are compared with the model and across transports. two threads sharing one facade (a refused WRITE(10) and a READ(10)): all schedules with at most 1 preemption at every source line of the library and at most 2 at the lines of the device and facade modules, each thread sees its own command's outcome. states = distinct "
         "disk contents, transitions = write-type events applied.")
 ASSUMPTIONS = [
     "the target (vf/sim/target.py) decodes CDBs with the oracle's own tables and stores blocks from the data-out buffer it is handed; the reference model is a dict updated from the *arguments* of the facade calls",
@@ -64,6 +63,11 @@ def events():
     return ev
 
 
+def OPT_PARTITIONS(tier):
+    """the -O pass repeats the sequential histories, not the schedule enumeration"""
+    return [p for p in partitions(tier) if p[0] != "shared"][::2 if tier == "quick" else 1]
+
+
 def partitions(tier):
     evs = events()
     parts = []
@@ -71,6 +75,7 @@ def partitions(tier):
         for i in range(len(evs)):
             parts.append([bs, i])
         parts.append([bs, -1])
+    parts += [["shared", "sgio"], ["shared", "iscsi"]]
     return parts
 
 
@@ -231,7 +236,106 @@ def run_history(bs, hist, check_all=True):
             r.close()
 
 
+class RefusingTarget(object):
+    pass
+
+
+def shared_bodies(tr):
+    """two threads share ONE facade/device: one writes LBA 5 and is refused (CHECK CONDITION, nothing stored), the other reads LBA 0"""
+    from vf.sim.target import Target, fixed_sense
+    tgt = Target(device_type=0, blocksize=512, nblocks=1 << 20)
+    tgt.disk[0] = b"\x11" * 512
+    orig = tgt.command
+
+    def command(cdb, dataout, datain, transport):
+        if cdb[0] == 0x2A:
+            tgt.log.append({"cdb": bytes(cdb), "refused": True})
+            return 0x02, fixed_sense(6, 0x29, 0x00)
+        return orig(cdb, dataout, datain, transport)
+    tgt.command = command
+    rig = harness.Rig(tr, 0x00, target=tgt)
+    s = rig.facade(blocksize=512)
+
+    def writer():
+        try:
+            s.write10(5, 1, bytearray(b"\xa5" * 512))
+            return "write returned normally"
+        except Exception as e:   # noqa: BLE001
+            return "write raised %s" % type(e).__name__
+
+    def reader():
+        try:
+            return "read returned %s" % bytes(s.read10(0, 1).datain[:2]).hex()
+        except Exception as e:   # noqa: BLE001
+            return "read raised %s" % type(e).__name__
+    return rig, [writer, reader]
+
+
+def device_lines(filename, lineno, event):
+    """scheduling points only in the device and facade modules (where per-device state lives)"""
+    return filename.endswith(("iscsi_device.py", "scsi_device.py", "pyscsi/scsi.py"))
+
+
+def run_shared(tr, choices, acc=None, tier="quick"):
+    import os
+
+    from vf import sched
+    install.ensure()
+    pre = os.path.join(os.environ.get("VF_REPO", "/repo"), "pyscsi") + "/"
+    want = ["write raised CheckCondition", "read returned 1111"]
+
+    def judge(x):
+        out = []
+        for tid, w in enumerate(want):
+            got = x.results[tid] if x.errors[tid] is None else "harness error %r" % (x.errors[tid],)
+            if got != w:
+                out.append(("%s/shared_device/%s" % (tr, "writer" if tid == 0 else "reader"),
+                            "two threads on one %s device, switches at %r: %s, the target answered so that '%s'"
+                            % (tr, [(i, x.points[i][2]) for i, c in enumerate(x.choices) if c][:4], got, w)))
+        return out
+
+    rigs = []
+    rig0, bodies0 = shared_bodies(tr)          # one device and facade for all schedules: the bodies keep no state but the device's
+    rigs.append(rig0)
+
+    def make():
+        del rig0.target.log[:]
+        return list(bodies0)
+    try:
+        if choices is not None:
+            return judge(sched.Execution(make(), choices, pre, device_lines if tier == "device" else None).run())
+
+        gran = [None]
+
+        def on_exec(x):
+            case = ["shared", tr, list(x.choices), gran[0]]
+            acc.case(case, nontrivial=any(x.choices), key=(tr, tuple(i for i, c in enumerate(x.choices) if c), tuple(c for c in x.choices if c)))
+            acc.transitions += 1
+            acc.traces += 1
+            for k, w in judge(x):
+                acc.violation(k, w, case)
+            acc.outcome(("shared", tr, tuple(x.results)))
+        gran[0] = "line"
+        n, capped = sched.explore(make, pre, 1, on_exec, None, 60000)
+        if capped:
+            acc.caps.append("schedule cap hit for shared device %s" % tr)
+        acc.add("schedules", n)
+        # two preemptions, scheduling points restricted to the device and facade modules
+        acc.add("schedules_1_preemption_every_line", n)
+        gran[0] = "device"
+        n, capped = sched.explore(make, pre, 2, on_exec, device_lines, 60000)
+        acc.add("schedules_2_preemptions_device_lines", n)
+        if capped:
+            acc.caps.append("schedule cap hit for shared device %s (2 preemptions)" % tr)
+        acc.add("schedules", n)
+    finally:
+        while rigs:
+            rigs.pop().close()
+
+
 def run_case(case):
+    if case[0] == "shared":
+        return run_shared(case[1], case[2], None, case[3] if len(case) > 3 else "line")
     bs, hist = case
     hist = [(e[0], e[1], e[2], e[3], tuple(tuple(f) for f in e[4])) for e in hist]
     return run_history(bs, hist)[0]
@@ -244,6 +348,9 @@ def replay(case):
 def run_partition(part, tier, seed):
     install.ensure()
     acc = Acc(seed)
+    if part[0] == "shared":
+        run_shared(part[1], None, acc)
+        return acc
     bs, first = part
     evs = events()
     depth = bounds(tier)["depth"]
